@@ -153,19 +153,46 @@ def unk(x):
         return repr(x)
 
 
+class V:
+    """A stored value with a finalizer that looks at the cache it was evicted from (a resource that
+    logs the cache size when it is released).  The checker keeps no reference to it, so it dies -
+    inside whatever cache operation drops it - the moment the cache lets go of it."""
+    __slots__ = ("label",)
+
+    def __init__(self, label):
+        self.label = label
+
+    def __del__(self):
+        c = _KEYS.get("cache")
+        if c is not None:
+            try:
+                len(c), bool(len(c))
+            except BaseException as e:  # noqa: BLE001 - reported by the run, then re-raised (and ignored by Python)
+                _KEYS["del_error"] = type(e).__name__
+                raise
+
+
+def wrapv(v):
+    return V(v) if _KEYS.get("values") == "finalizing" and isinstance(v, str) else v
+
+
+def lbl(x):
+    return x.label if isinstance(x, V) else x
+
+
 def apply_real(cache, op, step=None):
     """Apply op to the real cache.  ``step`` is called between next() calls."""
     kind = op[0]
     try:
         if kind == "set":
-            cache[mk(op[1])] = op[2]
+            cache[mk(op[1])] = wrapv(op[2])
             return ("ok", None)
         if kind == "getitem":
-            return ("ok", cache[mk(op[1])])
+            return ("ok", lbl(cache[mk(op[1])]))
         if kind == "get":
-            return ("ok", cache.get(mk(op[1])))
+            return ("ok", lbl(cache.get(mk(op[1]))))
         if kind == "getd":
-            return ("ok", cache.get(mk(op[1]), op[2]))
+            return ("ok", lbl(cache.get(mk(op[1]), op[2])))
         if kind == "del":
             del cache[mk(op[1])]
             return ("ok", None)
@@ -183,7 +210,7 @@ def apply_real(cache, op, step=None):
                     x = next(it)
                 except StopIteration:
                     break
-                out.append([unk(x[0]), x[1]] if kind == "items" else (x if kind == "values" else unk(x)))
+                out.append([unk(x[0]), lbl(x[1])] if kind == "items" else (lbl(x) if kind == "values" else unk(x)))
             return ("ok", out)
     except KeyError:
         return ("err", "KeyError")
@@ -265,7 +292,7 @@ class C24:
         "pre-emption happens at every bytecode instruction (half of the runs) or every line boundary (the other half) of lru_cache.py and at lock operations; never inside a C call",
         "a listing may linearise anywhere between its invocation and its last next()",
     ]
-    REQUIRED_REACH = ["reach.seq.evict", "reach.conc.switch_inside_op", "reach.conc.lock_contended",
+    REQUIRED_REACH = ["reach.finalizing_values", "reach.seq.evict", "reach.conc.switch_inside_op", "reach.conc.lock_contended",
                       "reach.conc.listing_overlaps_writer", "reach.lin.checked",
                       "reach.conc.walk_with_inner_ops", "reach.conc.listing_abandoned"]
 
@@ -291,7 +318,8 @@ class C24:
             nops = rng.randint(1, 60)
             ops = [self._gen_op(rng, nkeys, ("s", i)) for i in range(nops)]
             return {"config": "seq", "cls": cls, "capacity": cap, "ops": ops,
-                    "key_style": rng.choice(sorted(KEY_STYLES))}
+                    "key_style": rng.choice(sorted(KEY_STYLES)),
+                    "values": "finalizing" if rng.chance(0.15) else "plain"}
         cap = rng.randint(1, 4)
         nthreads = rng.weighted([(2, 6), (3, 6), (4, 4), (6, 2), (8, 2), (12, 1), (16, 1)])
         maxops = 8 if nthreads <= 3 else (5 if nthreads <= 6 else 2)
@@ -305,7 +333,8 @@ class C24:
                 "switch_p": rng.choice([0.05, 0.3, 0.7, 1.0]),
                 "sched_seed": rng.randrange(1 << 30),
                 "granularity": rng.choice(["line", "opcode"]),
-                "key_style": rng.choice(sorted(KEY_STYLES))}
+                "key_style": rng.choice(sorted(KEY_STYLES)),
+                "values": "finalizing" if rng.chance(0.15) else "plain"}
 
     def _gen_op(self, rng, nkeys, tag, profile="mixed"):
         k = rng.randrange(nkeys)
@@ -343,13 +372,20 @@ class C24:
     # -- execution ---------------------------------------------------------------
     def run(self, sc):
         _KEYS.update(style=sc.get("key_style", "int"), pool={}, n=0,
-                     seed=sc.get("sched_seed", len(sc.get("ops", ()))))
+                     seed=sc.get("sched_seed", len(sc.get("ops", ()))), values=sc.get("values", "plain"),
+                     cache=None, del_error=None)
         try:
-            if sc["config"] == "seq":
-                return self._run_seq(sc)
-            return self._run_conc(sc)
+            res = self._run_seq(sc) if sc["config"] == "seq" else self._run_conc(sc)
+            if _KEYS.get("del_error"):
+                res["violations"].append({
+                    "oracle": "never_fails", "sig": "finalizer:%s" % _KEYS["del_error"],
+                    "detail": {"note": "a stored value's finalizer called len(cache) while the cache was dropping it "
+                                       "(eviction, overwrite or delete) and could not"}})
+            if sc.get("values") == "finalizing":
+                bump(res["stats"], "reach.finalizing_values")
+            return res
         finally:
-            _KEYS.update(style="int", pool={}, n=0)
+            _KEYS.update(style="int", pool={}, n=0, values="plain", cache=None, del_error=None)
 
     def _run_seq(self, sc):
         res = new_result()
@@ -370,6 +406,7 @@ class C24:
     def _run_seq_body(self, sc, res, st, cls, cap, log):
         try:
             cache = cls(cap)
+            _KEYS["cache"] = cache
             ctor = ("ok", None)
         except ValueError:
             ctor = ("err", "ValueError")
@@ -460,6 +497,7 @@ class C24:
         SimLock.sim = None
         try:
             cache = lru_mod.ThreadSafeLRUCache(cap)
+            _KEYS["cache"] = cache
             hist = []
             for op in sc["prefill"]:
                 out = apply_real(cache, op)
@@ -493,7 +531,7 @@ class C24:
                                 x = next(it)
                             except StopIteration:
                                 break
-                            seen.append([unk(x[0]), x[1]] if kind == "items" else (x if kind == "values" else unk(x)))
+                            seen.append([unk(x[0]), lbl(x[1])] if kind == "items" else (lbl(x) if kind == "values" else unk(x)))
                             if todo:
                                 iop = todo.pop(0)
                                 i0 = sim.next_seq()
